@@ -1187,6 +1187,44 @@ theorem runOf_le (S : Nat → Bool) (text : List Nat) (start maxRepeat : Nat) : 
       exact ih (e + 1) (by omega)
     · exact h
 
+/-- giving repetitions back stops at the last admissible end followed by whitespace, at the minimum at the latest -/
+theorem giveBack_spec (W : Option (Nat → Bool)) (text : List Nat) (start minRepeat : Nat) : ∀ (e : Nat),
+    start + minRepeat ≤ e →
+    start + minRepeat ≤ giveBack W text start minRepeat e ∧ giveBack W text start minRepeat e ≤ e ∧
+    (∀ z, start + minRepeat ≤ z → z ≤ e → z < text.length → optMemAt W text z = true →
+      z ≤ giveBack W text start minRepeat e) ∧
+    (giveBack W text start minRepeat e = start + minRepeat ∨
+      (giveBack W text start minRepeat e < text.length ∧ optMemAt W text (giveBack W text start minRepeat e) = true)) := by
+  intro e
+  induction e with
+  | zero =>
+    intro h
+    have h0 : giveBack W text start minRepeat 0 = 0 := rfl
+    rw [h0]
+    exact ⟨h, Nat.le_refl _, fun z _ z2 _ _ => z2, Or.inl (by omega)⟩
+  | succ e ih =>
+    intro h
+    unfold giveBack
+    by_cases hc : (decide (minRepeat < e + 1 - start) && (decide (text.length ≤ e + 1) || !optMemAt W text (e + 1))) = true
+    · rw [if_pos hc]
+      simp only [Bool.and_eq_true, decide_eq_true_eq, Bool.or_eq_true, Bool.not_eq_true'] at hc
+      obtain ⟨h1, h2, h3, h4⟩ := ih (by omega)
+      refine ⟨h1, by omega, ?_, h4⟩
+      intro z z1 z2 z3 z4
+      by_cases hz : z = e + 1
+      · subst hz
+        rcases hc.2 with hn | hw
+        · omega
+        · rw [hw] at z4; simp at z4
+      · exact h3 z z1 (by omega) z3 z4
+    · rw [if_neg hc]
+      refine ⟨h, Nat.le_refl _, fun z _ z2 _ _ => z2, ?_⟩
+      simp only [Bool.and_eq_true, decide_eq_true_eq, Bool.or_eq_true, Bool.not_eq_true', not_and, not_or,
+        Nat.not_le, Bool.not_eq_false] at hc
+      by_cases hm : minRepeat < e + 1 - start
+      · right; exact hc hm
+      · left; omega
+
 /-- the core of an alternative is at least as wide as its minimum and ends inside the input -/
 theorem lmCore_some (text : List Nat) (c : Nat) (alt : LmAlt) (e : Nat) (h : lmCore text c alt = some e) :
     c < e ∧ e ≤ text.length := by
@@ -1203,18 +1241,27 @@ theorem lmCore_some (text : List Nat) (c : Nat) (alt : LmAlt) (e : Nat) (h : lmC
         by_cases hrun : runOf S text c (if alt.maxRepeat ≤ 0 then alt.minRepeat else alt.maxRepeat.toNat) (text.length + 1) c - c < alt.minRepeat
         · rw [if_pos hrun] at h; simp at h
         · rw [if_neg hrun] at h
-          injection h with h
-          subst h
-          refine ⟨by omega, ?_⟩
-          by_cases hcn : c ≤ text.length
-          · exact runOf_le S text c _ (text.length + 1) c hcn
-          · exfalso
-            apply hrun
-            have : runOf S text c (if alt.maxRepeat ≤ 0 then alt.minRepeat else alt.maxRepeat.toNat) (text.length + 1) c = c := by
-              unfold runOf
-              have : ¬ c < text.length := by omega
-              simp [this]
-            rw [this]; omega
+          have hbound : runOf S text c (if alt.maxRepeat ≤ 0 then alt.minRepeat else alt.maxRepeat.toNat) (text.length + 1) c ≤ text.length := by
+            by_cases hcn : c ≤ text.length
+            · exact runOf_le S text c _ (text.length + 1) c hcn
+            · exfalso
+              apply hrun
+              have : runOf S text c (if alt.maxRepeat ≤ 0 then alt.minRepeat else alt.maxRepeat.toNat) (text.length + 1) c = c := by
+                unfold runOf
+                have : ¬ c < text.length := by omega
+                simp [this]
+              rw [this]; omega
+          by_cases hgb : (alt.reqAfter && alt.trailWs.isSome) = true
+          · rw [if_pos hgb] at h
+            injection h with h
+            subst h
+            have hge : c + alt.minRepeat ≤ runOf S text c (if alt.maxRepeat ≤ 0 then alt.minRepeat else alt.maxRepeat.toNat) (text.length + 1) c := by omega
+            obtain ⟨g1, g2, _, _⟩ := giveBack_spec alt.trailWs text c alt.minRepeat _ hge
+            exact ⟨by omega, by omega⟩
+          · rw [if_neg hgb] at h
+            injection h with h
+            subst h
+            exact ⟨by omega, hbound⟩
       · simp [hm] at h
   · simp only [hl, Bool.not_false, if_true] at h
     by_cases hfit : (decide (text.length < c + alt.literal.length) || !occursAt eqExact alt.literal text c) = true
